@@ -145,7 +145,7 @@ def run_case(case, tier):
                     if not c.json_ok or b is None:
                         viol.append(dict(key="C17|instance-failed|dec", what="decoder instance %d did not complete in the concurrent run" % i))
                     elif a != b or (s.dec or {}).get("nerr") != (c.dec or {}).get("nerr"):
-                        viol.append(dict(key="C17|output-differs|dec-with-" + "+".join(sorted(x["kind"] for j, x in enumerate(case["insts"]) if j != i)),
+                        viol.append(dict(key="C17|output-differs|dec-%s-with-" % ("mt" if case["insts"][i]["threads"] > 1 else "st") + "+".join(sorted(x["kind"] for j, x in enumerate(case["insts"]) if j != i)),
                                          what="decoder instance %d (threads %d): decoded pictures differ from its solo run" % (i, case["insts"][i]["threads"])))
                     else:
                         done += 1
